@@ -31,9 +31,9 @@ pub const SHAPE_CLASSES: [&str; 9] = [
     "tabs",
     "trailing-ws",
 ];
-/// kinds of planted local errors; the last two are classified apart because their reported location has a
+/// kinds of planted local errors; the last three are classified apart because their reported location has a
 /// cause of its own (see `rule()`)
-pub const KINDS: [&str; 11] = [
+pub const KINDS: [&str; 12] = [
     "syntax",
     "unresolved",
     "duplicate",
@@ -45,6 +45,7 @@ pub const KINDS: [&str; 11] = [
     "conflict-marker",
     "outer-stmt",
     "syntax-eof",
+    "unary-minus",
 ];
 
 /// one statement of a function body; `lines` carry indentation relative to the body level
@@ -119,6 +120,15 @@ pub struct Plant {
     pub setup_inner: Vec<String>,
     /// the offending line (without indentation)
     pub line: String,
+    /// text before / after the offending text on its line, present in the legal twin too (expression contexts:
+    /// the `,` after a list element, the end of a multi-line string literal before it)
+    #[serde(default)]
+    pub prefix: String,
+    #[serde(default)]
+    pub suffix: String,
+    /// what replaces `line` in the legal twin ("" = `zn :: 0`)
+    #[serde(default)]
+    pub twin: String,
     /// appended to the offending line (whitespace / a comment)
     #[serde(default)]
     pub trailer: String,
@@ -257,7 +267,15 @@ pub fn render(case: &Case, mode: Mode) -> Rendered {
             // the planted line itself
             e.track = false;
             *exp_line = e.lines + 1;
-            let text = if mode == Mode::Planted { p.line.as_str() } else { TWIN_LINE };
+            let core = if mode == Mode::Planted {
+                p.line.as_str()
+            } else if p.twin.is_empty() {
+                TWIN_LINE
+            } else {
+                p.twin.as_str()
+            };
+            let text = format!("{}{}{}", p.prefix, core, p.suffix);
+            let text = text.as_str();
             let lv = if p.unindented { 0 } else { level };
             let last_term = if p.no_final_newline && mode == Mode::Planted { "" } else { term };
             e.line(text, lv, p.tabs && !p.unindented, &p.trailer, last_term);
@@ -345,9 +363,11 @@ pub fn render(case: &Case, mode: Mode) -> Rendered {
 
 pub enum Probe {
     Malformed,
+    #[allow(dead_code)]
     TwinRejected(String),
     TwinPanic,
     NotAnError,
+    #[allow(dead_code)]
     Panic(String),
     Right { first: ErrInfo, nerr: usize, before: BTreeSet<String>, exp_line: usize },
     Wrong { first: ErrInfo, nerr: usize, exp_file: String, exp_line: usize, alt_lines: Vec<usize>, source: String },
@@ -568,7 +588,11 @@ impl Check for C15 {
                 if p.dup_of.is_some() {
                     labels.add(if first.line == exp_line { "duplicate:reported-at-plant" } else { "duplicate:reported-at-other-definition" });
                 }
-                let nt = p.file != 0 || before.contains("multiline-string") || before.contains("string-nonascii") || before.contains("comment-nonascii");
+                let in_stmt = matches!(ctx_label(p).as_str(), "string-tail" | "list-str");
+                if in_stmt {
+                    labels.add("shape:multiline-string-in-same-statement");
+                }
+                let nt = p.file != 0 || in_stmt || before.contains("multiline-string") || before.contains("string-nonascii") || before.contains("comment-nonascii");
                 Verdict::Pass { nontrivial: nt }
             }
             Probe::Wrong { first, nerr, exp_file, exp_line, alt_lines, source } => {
@@ -631,8 +655,10 @@ impl Check for C15 {
          unresolved (name, call, type, namespace member, from-import) / duplicate (global, function, blob, import) / const-assign \
          (local, global, imported, function name) / operator / argument (own, imported or adjacent annotated function; type or arity; \
          paren, arrow and prime calls) / annotation (definition and return annotations) / break / conflict-marker / outer-stmt \
-         (non-definition at top level) / syntax-eof (last line without terminator), at a generated (file, line) in context top level / \
-         function body / fresh function, wrapped in 0-3 of if, else, elif, loop, closure, do, case-arm. The planted line replaced by \
+         (non-definition at top level) / syntax-eof (last line without terminator) / unary-minus (`-` on a non-number literal), at a generated (file, line) in context top level / \
+         function body / fresh function, wrapped in 0-3 of if, else, elif, loop, closure, do, case-arm, and (syntax / unresolved / \
+         operator) optionally as an expression on its own line inside a multi-line list literal, call argument list, parenthesised \
+         group, or directly after the end of a string literal that began lines earlier. The planted line replaced by \
          `zn :: 0` (legal twin) must compile, otherwise the case is discarded. oracle: the planted project is rejected (accepted => \
          discard plant-not-an-error) and the FIRST returned error has file == planted file and line_start == planted line (1 + number \
          of '\\n' before it); duplicates: the line of either definition. A wrong location is re-tested with the text shapes removed \
@@ -664,8 +690,18 @@ impl Check for C15 {
             return Err(format!("{:.1}% of the base projects (legal twins) do not compile", 100.0 * tw / ev));
         }
         // kinds behind the avoid switch are generated in 20 % of the budget only
+        let forced = std::env::var("C15_AVOID").ok();
         for k in KINDS.iter() {
-            let need = if *k == "outer-stmt" || *k == "syntax-eof" { 3 } else { s.evaluations / 100 };
+            if forced.as_deref() == Some("1") && (*k == "outer-stmt" || *k == "syntax-eof") {
+                continue;
+            }
+            let need = if *k == "outer-stmt" || *k == "syntax-eof" {
+                3
+            } else if *k == "unary-minus" {
+                s.evaluations / 300
+            } else {
+                s.evaluations / 100
+            };
             if s.label(&format!("kind:{}", k)) < need.max(1) {
                 return Err(format!("planted kind {} (nearly) absent: {} cases", k, s.label(&format!("kind:{}", k))));
             }
@@ -716,9 +752,7 @@ fn drop_names(case: &Case, seed: BTreeSet<String>, drop_file: Option<usize>) -> 
                 if Some(fi) == drop_file || intersects(&pc.refs, &names) || defines_hit {
                     gone.insert((fi, pi));
                     for (n, _) in &pc.defines {
-                        if names.insert(n.clone()) {
-                            changed = true;
-                        }
+                        names.insert(n.clone());
                     }
                     changed = true;
                 }
@@ -807,7 +841,7 @@ fn simplify(case: &Case, idx: usize) -> Step<Case> {
     let p = &case.plant;
     if k < p.wraps.len() {
         // a fresh function at top level must stay when the planted line is a statement
-        if p.wraps[k].kind == "fresh-fn" {
+        if matches!(p.wraps[k].kind.as_str(), "fresh-fn" | "list-int" | "list-str" | "call-arg" | "paren-group" | "string-tail") {
             return Step::Skip;
         }
         let mut c = case.clone();
